@@ -22,7 +22,7 @@ CFG = {
     "C05": dict(focus=["pckCrlRev", "rootCrlRev", "pckCrlSigner", "rootCrlSigner", "pckCrlFetch", "rootCrlDps", "serials"], optset="all", now=["set"]),
     "C06": dict(focus=["time", "sharedSigner"], optset="levels", now=["set"]),
     "C07": dict(focus=["qeContent", "qeExtra"], optset="levels", now=["set"]),
-    "C11": dict(focus=["authLen", "extra", "trailer", "tcbContent", "modBranch", "qeContent", "pckCrlRev", "rootCrlRev", "rootCrlDps", "leafId", "serials", "sharedSigner", "src", "pool"],
+    "C11": dict(focus=["authLen", "extra", "trailer", "tcbContent", "modBranch", "qeContent", "pckCrlRev", "rootCrlRev", "rootCrlDps", "leafId", "serials", "sigShape", "sharedSigner", "src", "pool"],
                 optset="levels", now=["set", "unset"]),
     "C12": dict(focus=["pool", "interCN", "tcbHdr", "qeHdr", "pckCrlFetch", "rootCrlDps"], optset="all", now=["set", "unset"]),
 }
@@ -114,7 +114,7 @@ def random_worlds(cases, n):
         nid += 1
         added += 1
         cases.append(dict(id=nid, w=w, x=dict(lenient=True),
-                          runs=[dict(gc=g, cr=c_, now="set", entry=rnd.choice(["raw", "msg"])) for g, c_ in ((False, False), (True, False), (True, True))]))
+                          runs=[dict(gc=g, cr=c_, now="set", entry=("msg" if "msgWide" in w else rnd.choice(["raw", "msg"]))) for g, c_ in ((False, False), (True, False), (True, True))]))
     return added
 
 
